@@ -6,6 +6,8 @@ EXTENDS Concurrency, Json
 Emit == AllDone =>
   PrintT(<<"VEC", ToJson([kinds |-> kind, codecs |-> [p \in Procs |-> req[p].codec], bodies |-> [p \in Procs |-> req[p].body],
                            serial |-> serial, order |-> hist])>>)
+\* safety does not depend on the order in which the state was reached: the larger runs look at states without the schedule
+NoHist == <<req, serial, pos, at, lastErr, pool, ref, seen, resp>>
 \* the codec family: every content type class x body kind, answered with an echo wherever the body can be decoded
 CodecFamily == \A p \in Procs : (req[p].kind = "invalid") <=> DecodeFails(req[p].codec, req[p].body)
 ===============================================================================
